@@ -18,6 +18,7 @@ RULE = (
     "and results appear under the current output names; rejected renames must raise RenameError. Plus whole-graph "
     "alpha-renaming of generated DAGs in 1-3 stages compared with the original run. Non-trivial: history has >= 2 "
     "batches or a batch that permutes names; distinct = (node kind, canonical history)."
+    ' Also: a MAPPED if/else graph whose items take different branches, wrapper outputs renamed by 1-3 batches, compared with the un-renamed wrapper under the forward map.'
 )
 ASSUMPTIONS = [
     "each parameter carries a distinct annotation and default so that a mix-up between parameters is visible",
